@@ -22,7 +22,8 @@ func TestMain(m *testing.M) {
 			"nested defs, lambdas, comprehensions, for/while/if code, universals, globals bound to builtins, and predeclared values (the vf module, host, "+
 			"package, a Cache(), a flag value, another target, path/label/glob/contains builtins) - and a target function that references a generated subset "+
 			"of them; a second target in another package references its own items. Oracle, each step in a fresh child process with a 64 MB stack limit: "+
-			"(1) Load+Run exits normally and no error mentions the function environment; (2) a second process on the identical text evaluates nothing; "+
+			"(1) Load+Run exits normally and no error mentions the function environment; (2) a second process on the identical text evaluates nothing, "+
+			"neither does one on a copy of text and state at another absolute path; "+
 			"(3) after one generated mutation of something the target references (a constant, a leaf deep inside a collection, an element of a big "+
 			"collection, helper code, a default, a captured value, a called universal, a global rebound to another builtin) a third process re-evaluates "+
 			"the target, and after a mutation of something only the other package's target references it does not. Non-trivial = the target uses recursion, "+
@@ -257,6 +258,24 @@ func exec(c Case) (v ev.Verdict) {
 			}
 		}
 		return ev.Failf("fingerprint-not-deterministic", "a second process on the identical text re-evaluates %v (%s); target uses [%s]", ev2, reason, describe())
+	}
+	// (2b) identical text and state at another absolute path (the project directory was moved or
+	// checked out elsewhere): fingerprints may not depend on where the text lives
+	if moved, err := sim.CloneFull(); err == nil {
+		rm := moved.ChildBuild(projsim.BuildReq{Label: "//:t"})
+		moved.Close()
+		if f := check("build after moving the project", rm); f != nil {
+			return *f
+		}
+		if evm := rm.EvaluatingSet(true); len(evm) > 0 {
+			reason := ""
+			for _, e := range rm.Events {
+				if e.Kind == "Evaluating" && !strings.HasPrefix(e.Label, "source:") {
+					reason = e.Text
+				}
+			}
+			return ev.Failf("fingerprint-depends-on-location", "the identical project at another absolute path re-evaluates %v (%s); target uses [%s]", evm, reason, describe())
+		}
 	}
 	// (3) mutation
 	rt2, ot2 := c.text(true)
